@@ -200,6 +200,6 @@ def check_scenario(case, ctx):
 def subs(tier):
     return [
         Enumerated("scenarios", check_scenario, cases=_scenarios),
-        Generated("enforced", check_enforced, strategy=_cases(True), quick=320, thorough=30000),
-        Generated("monitor", check_monitor, strategy=_cases(False), quick=240, thorough=20000),
+        Generated("enforced", check_enforced, strategy=_cases(True), quick=320, thorough=30000, budget_s_quick=60.0),
+        Generated("monitor", check_monitor, strategy=_cases(False), quick=240, thorough=20000, budget_s_quick=60.0),
     ]
